@@ -7,10 +7,10 @@ VERIF = os.path.dirname(os.path.dirname(os.path.abspath(__file__)))
 # id -> (technique, level text, level note, design ref)
 CHECKS = {
     "C01": ("reference-model monitor: device simulator executes the emitted command paths; real second diff/patch observed",
-            "For generated rulebooks x every block-CLI vendor x chains of configuration pairs (plus an exhaustive small scope), the real _diff_and_patch output is "
+            "For generated rulebooks x every block-CLI vendor and the Junos-like vendors (juniper, ribbon, nokia: flattened set/delete statements) x chains of configuration pairs (plus an exhaustive small scope), the real _diff_and_patch output is "
             "flattened by the real formatter and executed command by command on a reference device (one line per rule and key); the resulting state must equal the "
             "desired configuration and the real second diff/patch on that state must be empty, along the whole chain. Held = every observed execution converged.",
-            "Trusted: R1/R2 reference rule selection and the R4 device model (vf/ref). Junos-like and RouterOS formatters are not simulated. Domain restrictions are listed in evidence assumptions.", "4/C01"),
+            "Trusted: R1/R2 reference rule selection and the R4 device model (vf/ref). The Junos-like device segments statements by the rulebook (fixed-width block rows); the RouterOS formatter is not simulated. Domain restrictions are listed in evidence assumptions.", "4/C01"),
     "C02": ("reference-model monitor: ACL coverage model R3 judges every executed command and every device line (node identity) after the reference device ran the real patch",
             "The real _diff_and_patch runs on a full device configuration (owned + foreign rows at every depth) with the combined ACL of 1-3 generators; the emitted commands are executed "
             "on the reference device, which logs what each command did. Observed: every set/create command and its blocks are ACL-covered; no uncovered line (whose ancestors were never "
